@@ -17,8 +17,11 @@ func vPlainText(n int) string {
 func VerifC15PlaintextWidth() {
 	n := verifrt.Choice("len", verifrt.Param("chars", 4)+1)
 	text := vPlainText(n)
-	if verifrt.Choice("withurl", 2) == 1 {
+	switch verifrt.Choice("withurl", 3) {
+	case 1:
 		text = "see https://a.b/c " + text
+	case 2:
+		text = "a://b" + text
 	}
 	width := verifrt.Int("width", 1, verifrt.Param("maxw", 8))
 	out, _ := renderWithLinks(text, width)
